@@ -65,6 +65,26 @@ theorem tokTable_foldEq {a b : Array Char} (h : FoldEq lower a b) (rx : Rx) (tok
     · intro ht p
       exact hre i (by rw [Array.getElem?_eq_getElem hi]; exact congrArg some ht) a b h p
 
+/-- the run on one input depends on the regex engine only through its answers *on that input* (the driver
+uses this: per input it plugs in the rows measured on the real `re` for that input) -/
+theorem tokTable_congr_rx (rx rx' : Rx) (toks : Array Tok) (input : Array Char)
+    (h : ∀ i p, rx i input p = rx' i input p) : tokTable lower rx toks input = tokTable lower rx' toks input := by
+  apply Array.ext
+  · simp [tokTable]
+  · intro i h1 h2
+    have hi : i < toks.size := by simpa [tokTable] using h1
+    simp only [tokTable, Array.getElem_ofFn]
+    generalize toks[i] = t
+    cases t with
+    | str lit ic => rfl
+    | re => simp [tokRow, h]
+    | other => rfl
+
+theorem run_congr_rx (rx rx' : Rx) (L : Lang) (input : Array Char) (fuel : Nat)
+    (h : ∀ i p, rx i input p = rx' i input p) : L.run lower rx input fuel = L.run lower rx' input fuel := by
+  unfold Lang.run Lang.grammar
+  rw [tokTable_congr_rx rx rx' L.toks input h]
+
 theorem WsSafe.stripEol {ws : List Char} (h : WsSafe lower ws) : WsSafe lower (stripEol ws) := by
   intro c hc d hd
   exact h c (List.mem_filter.mp hc).1 d hd
